@@ -189,6 +189,8 @@ impl<D: DictionaryAccess> DictBuilder<D> {
             DataSource::File(p) => self.lexicon.read_file(p),
             DataSource::Data(d) => self.lexicon.read_bytes(d),
         };
+        // new entries can contain unresolved references
+        self.resolved = false;
         self.reporter.collect_r(result, report)
     }
 
